@@ -48,7 +48,7 @@ class _Canon(ast.NodeTransformer):
         self.generic_visit(node)
         f = node.func
         name = f.id if isinstance(f, ast.Name) else None
-        if name in ("float", "int") and len(node.args) == 1 and not node.keywords:
+        if name in ("float",) and len(node.args) == 1 and not node.keywords:
             return node.args[0]
         if name in COMMUTATIVE and not node.keywords:
             node.args = sorted(node.args, key=ast.unparse)
